@@ -1,5 +1,5 @@
 /*VERIF
-{ "tu": "src/time.c", "enforce": "dispatch_walltime", "seq": true, "timeout": 300,
+{ "tu": "src/time.c", "enforce": "dispatch_walltime", "seq": true, "timeout": 90,
   "stub_note": "wall clock read returns an arbitrary reading in [3, 2^62-2]",
   "assumes": ["wall clock reading in [3, 2^62-2] ns", "timespec tv_nsec in [0, 1e9)", "__builtin_mul_overflow(tv_sec, 10^9) is exact (compiler builtin trusted; used identically by code and spec)"] }
 VERIF*/
